@@ -134,12 +134,45 @@ async fn run_case<TC: Configuration>(ctx: &Ctx, cc: &CaseCtx, case: &HistCase, r
             let o = Opts { allow_missing: true, published: w.published.clone() };
             let rt = Reader::W(dir_t.clone());
             let before = transcript::take::<TC>(&rt, &w.pk, &labels, &o).await;
+            // a third of the runs tombstone while a transaction is OPEN on the shared manager - the state a
+            // publish is in between begin_transaction and its commit (the tombstone records then sit in the
+            // transaction log, and every read of the directory merges log and database)
+            let in_flight = rng.chance(1, 3);
+            if in_flight && !mgr_t.begin_transaction() {
+                l.inconclusive("could not open a transaction on a fresh manager");
+                return;
+            }
             if let Err(e) = mgr_t.tombstone_value_states(&AkdLabel(label.clone()), cutoff).await {
                 l.violation("C20:tombstone-failed", format!("tombstone_value_states failed: {e:?}"), detail(("-".into(), "-".into(), "-".into())));
                 return;
             }
-            let after = transcript::take::<TC>(&rt, &w.pk, &labels, &o).await;
             let repl = expected_history_lines(&w.model, label, cur, cutoff);
+            if in_flight {
+                l.count("tombstoned_inside_open_transaction", 1);
+                let mid = transcript::take::<TC>(&rt, &w.pk, &labels, &o).await;
+                match compare(&before, &mid, &repl) {
+                    Ok(n) => l.count("transcript_lines_compared", n),
+                    Err(what) => {
+                        let class = if what.0.starts_with("history") && what.0.contains(&hxu(label)) { "own-history" } else { what.0.split(' ').next().unwrap_or("?") }.to_string();
+                        l.violation(
+                            format!("C20:during-open-transaction/{class}"),
+                            format!("tombstoning {} up to epoch {cutoff} while a transaction is open changed '{}': expected '{}', got '{}'", hx(label), what.0, what.1, what.2),
+                            detail(what),
+                        );
+                        return;
+                    }
+                }
+                // the transaction commits (epoch record last, unchanged here)
+                let committed = match mgr_t.get::<Azks>(&akd::append_only_zks::DEFAULT_AZKS_KEY).await {
+                    Ok(rec) => mgr_t.set(rec).await.is_ok() && mgr_t.commit_transaction().await.is_ok(),
+                    Err(_) => false,
+                };
+                if !committed {
+                    l.violation("C20:commit-after-tombstone-failed", "the transaction holding the tombstone records could not be committed", detail(("-".into(), "-".into(), "-".into())));
+                    return;
+                }
+            }
+            let after = transcript::take::<TC>(&rt, &w.pk, &labels, &o).await;
             match compare(&before, &after, &repl) {
                 Ok(n) => l.count("transcript_lines_compared", n),
                 Err(what) => {
